@@ -5,3 +5,10 @@ HARNESSES = {
     'Circular': dict(mode='X', validate=0),
     'Elliptical': dict(mode='X', validate=0),
 }
+
+BOUNDS = {
+    'Registers': 'n in {0,1,2,3,57,58} stops (symbolic stop values for n <= 3), any prior CSEL/NSEL outside the stop range, symbolic matrix, every shape and spread',
+    'Rejects': 'n in {0,1,2,3,57,58,59,64,255,256,257,300}, every CSEL byte, recorder / Renderer (selector any byte) / Encoder',
+    'Linear/Circular/Elliptical': 'exact-real reading, all non-degenerate real inputs',
+}
+OUTSIDE = 'rounding error of the helper matrices (rounded-real does not terminate); rendered geometry is the composition with C15 (paper step)'
